@@ -24,7 +24,10 @@ ASSUMPTIONS = [
     "mj_containsBufferVFS on an entry created by mj_addFileVFS and mj_containsFileVFS on an entry created by mj_addBufferVFS are not specified ('Check if buffer exists' / 'Check if file exists'): tolerated and counted",
     "names that are directory prefixes of other names are not generated (mount-point semantics of mj_mountVFS are outside this property)",
     "mj_deleteVFS with open resources is allowed (user_vfs.cc warns 'Resources will be invalidated'); the harness does not touch such resources afterwards",
-    "three defect-specific workloads are confined to flagged batches (path-spelling queries of mj_containsBufferVFS, mj_addFileVFS of a missing disk file, delete while a resource is open) so that the remaining histories keep full coverage",
+    "two defect-specific workloads are confined to flagged batches (path-spelling queries of mj_containsBufferVFS, mj_addFileVFS of a missing disk file) so that the remaining histories keep full coverage",
+    "deleting a file while a resource opened on it is still open is opt-in (flag 4) and OUTSIDE the verdict: the statement has no memory-safety clause. The batch runs on the rel build only, "
+    "ends each history at that delete without touching the stale resource or the VFS again (no use-after-free is executed), and feeds only the counters out_of_scope:resource_open_across_delete*; "
+    "write-up: findings/out_of_scope/C39-delete-while-resource-open-use-after-free.md",
 ]
 
 _SCRATCH_ROOT = "/tmp/vf-c39-%d" % os.getpid()
@@ -50,7 +53,7 @@ def _jobs(ctx):
     for i in range(ctx.pick(1, 3)):
         jobs.append(("rel", ["seq", s + 200 + i, 200, 25, 1]))
         jobs.append(("rel", ["seq", s + 300 + i, 200, 25, 2]))
-        jobs.append(("asan", ["seq", s + 400 + i, 200, 25, 4]))
+        jobs.append(("rel", ["seq", s + 400 + i, 200, 25, 4]))    # informational only, see ASSUMPTIONS
     return jobs
 
 
@@ -58,15 +61,25 @@ def _evaluate(ctx, fl, args, res):
     flags = int(args[4])
     detail = {"flavour": fl, "args": [str(a) for a in args]}
     key = "%s|%s" % (fl, ",".join(str(a) for a in args))
+    if flags & 4:
+        # out of the verdict: nothing observed in this batch becomes a violation or a case
+        oos = "out_of_scope:resource_open_across_delete"
+        s = None if res["timed_out"] else _summary(res["out"])
+        ctx.count(oos + ":histories", int(s["histories"]) if s else 0)
+        ctx.count(oos, int(s.get("open_across_delete", 0)) if s else 0)
+        if s is None:
+            ctx.count(oos + ":batch_did_not_finish")
+        for kind, sig, text in res["reports"]:
+            ctx.count(oos + ":sanitizer_report")
+        for tag in sorted({l[5:].split(": ")[0].strip() for l in res["out"].splitlines() if l.startswith("FAIL ")}):
+            ctx.count(oos + ":batch_failed:" + tag)
+        return
     if res["timed_out"]:
         ctx.violation("hang:vfs", dict(detail, note="batch did not finish"))
         return
     for kind, sig, text in res["reports"]:
         ctx.count("sanitizer_reports")
-        if flags & 4 and "use-after-free" in text and "VFS::Close" in text:
-            ctx.violation("resource-open-across-delete-uses-freed-provider:close", dict(detail, report=text))
-        else:
-            ctx.violation("sanitizer:%s" % sig, dict(detail, report=text))
+        ctx.violation("sanitizer:%s" % sig, dict(detail, report=text))
     fails = [l for l in res["out"].splitlines() if l.startswith("FAIL ")]
     seen = set()
     for f in fails:
